@@ -5,8 +5,11 @@ package app
 import (
 	"context"
 	"fmt"
+	"net"
 	"os"
 	"path/filepath"
+	"strconv"
+	"strings"
 	"sync"
 	"time"
 
@@ -34,6 +37,8 @@ const (
 // Options describes one heimdall instance.
 type Options struct {
 	Service string // SvcNone: no listener, only the rule machinery
+	// Host the service listens on (default 127.0.0.1; "::1" for an IPv6 peer address)
+	Host string
 	// ExtraYAML is appended to the generated configuration file (top-level keys other than
 	// serve/mechanisms/tracing/metrics/log).
 	ExtraYAML string
@@ -50,6 +55,7 @@ type Options struct {
 }
 
 type App struct {
+	Host     string
 	Port     int
 	MgmtPort int
 	Dir      string
@@ -93,7 +99,10 @@ func New(o Options) (*App, error) {
 	if err != nil {
 		return nil, err
 	}
-	a := &App{Dir: dir}
+	a := &App{Dir: dir, Host: "127.0.0.1"}
+	if o.Host != "" {
+		a.Host = o.Host
+	}
 	if a.Port, err = FreePort(); err != nil {
 		return nil, err
 	}
@@ -106,10 +115,14 @@ func New(o Options) (*App, error) {
 		mode = config.ProxyMode
 		svcKey = "proxy"
 	}
+	cfgHost := a.Host
+	if strings.Contains(cfgHost, ":") {
+		cfgHost = "[" + cfgHost + "]" // heimdall joins host and port with a colon
+	}
 	cfgPath := filepath.Join(dir, "heimdall.yaml")
 	cfg := fmt.Sprintf(`
 serve:
-  %s: {host: 127.0.0.1, port: %d}
+  %s: {host: "%s", port: %d}
   management: {host: 127.0.0.1, port: %d}
 log: {level: error}
 tracing: {enabled: false}
@@ -122,7 +135,7 @@ mechanisms:
     - id: noop
       type: noop
 %s
-`, svcKey, a.Port, a.MgmtPort, o.ExtraYAML)
+`, svcKey, cfgHost, a.Port, a.MgmtPort, o.ExtraYAML)
 	if err := os.WriteFile(cfgPath, []byte(cfg), 0o600); err != nil {
 		return nil, err
 	}
@@ -171,7 +184,7 @@ mechanisms:
 		return nil, err
 	}
 	if o.Service != SvcNone {
-		if err := WaitPort(a.Port, 5*time.Second); err != nil {
+		if err := WaitAddr(a.Addr(), 5*time.Second); err != nil {
 			_ = a.Stop()
 			return nil, err
 		}
@@ -187,4 +200,4 @@ func (a *App) Stop() error {
 	return err
 }
 
-func (a *App) Addr() string { return fmt.Sprintf("127.0.0.1:%d", a.Port) }
+func (a *App) Addr() string { return net.JoinHostPort(a.Host, strconv.Itoa(a.Port)) }
